@@ -23,7 +23,7 @@ type Invalidator struct {
 
 // Invalidate triggers cache expiration.
 func (i *Invalidator) Invalidate(ctx context.Context) error {
-	if i.Callbacks == nil {
+	if len(i.Callbacks) == 0 {
 		return ErrNothingToInvalidate
 	}
 
